@@ -37,6 +37,35 @@ Theorem C20_log_after_strip_refuted :
 Proof. exact log_after_strip_refuted. Qed.
 Print Assumptions C20_log_after_strip_refuted.
 
+(* ---- the whole session: Driver.open / AsyncDriver.open ---- *)
+(* When channel.open() is the first channel-level event of the session, the sink holds EVERY byte read from
+   the device from the first byte of the session on — banner, login dialogue, motd, prompts, outputs —
+   carriage returns removed, in order, once. *)
+Theorem C20_whole_session_exact :
+  forall (strip : bytes -> bytes) (k : sink_kind) (existing : bytes) (sink0 : option bytes) (chunks : list bytes),
+    sess_log strip k existing sink0 (EvOpen :: map EvRead chunks) =
+    match open_sink k existing with
+    | None => None
+    | Some s0 => Some (s0 ++ remove_byte CR (concat chunks))
+    end.
+Proof. exact whole_session_exact. Qed.
+Print Assumptions C20_whole_session_exact.
+
+(* reads made before channel.open() (a login run before the channel is set up) never reach the log: the
+   statement is false of such an order, the log is that of the later reads alone *)
+Theorem C20_late_open_loses :
+  forall strip k existing pre post,
+    sess_log strip k existing None (map EvRead pre ++ EvOpen :: map EvRead post) = chan_log strip k existing post.
+Proof. exact late_open_loses. Qed.
+Print Assumptions C20_late_open_loses.
+
+Theorem C20_late_open_refuted :
+  exists pre post,
+    sess_log (fun b => b) SBytesIO [] None (map EvRead pre ++ EvOpen :: map EvRead post)
+    <> Some (remove_byte CR (concat (pre ++ post))).
+Proof. exact late_open_refuted. Qed.
+Print Assumptions C20_late_open_refuted.
+
 (* ---- log file, buffering handler (ScrapliFileHandler), as the code is now ---- *)
 (* For EVERY formatter configuration, previous file content, mode and EVERY sequence of records (eager or
    lazily %-formatted, any extras, malformed ones included) followed by close: the file is the previous
@@ -191,6 +220,16 @@ Theorem C20_generated_read_path :
   /\ gen_transport_read_sites_base = [].
 Proof. repeat split; vm_compute; reflexivity. Qed.
 Print Assumptions C20_generated_read_path.
+
+(* open() of both drivers: pre-open log -> transport.open() -> channel.open() -> in-channel logins (ssh: sync only;
+   telnet) -> on_open -> post-open log; channel.open() comes before every statement that may read the channel, and
+   nothing in the driver modules reads the transport directly *)
+Theorem C20_generated_open_order :
+  open_before_reads gen_open_steps_sync = true /\ open_before_reads gen_open_steps_async = true
+  /\ gen_open_steps_sync = [1; 2; 3; 4; 5; 6; 7]%nat /\ gen_open_steps_async = [1; 2; 3; 5; 6; 7]%nat
+  /\ gen_transport_read_sites_driver_sync = [] /\ gen_transport_read_sites_driver_async = [].
+Proof. repeat split; vm_compute; reflexivity. Qed.
+Print Assumptions C20_generated_open_order.
 
 (* the records of the hot path, as the source spells them, are lazily formatted, format without error for any
    payload, and are classified as the handler expects: reads are reads, writes are not *)
